@@ -281,6 +281,35 @@ def run(repo, rep):
             echoes = [(e, s) for e, s in c.log if e.kind == 'store' and e.callee.endswith('.maximum_length_received')]
             if not echoes:
                 p2.append('the acceptor never writes the value it announces')
+            # the reply is encoded later, by the provider thread: what it announces is what the sub-item holds then, so a write
+            # made by whoever called accept(), after it returned, counts as well
+            kls_ = repo.cls('asceprovider', cls)
+            for mname_, mf_ in sorted(kls_.methods.items()):
+                if mname_ == meth or not any(isinstance(n_, ast.Call) and norm(n_.func) == 'self.%s' % meth for n_ in ast.walk(mf_.node)):
+                    continue
+                rep.analysed(mf_)
+                cc_ = SymClient(repo, mf_, event_of=ev, hierarchy=hier, store_event=stores, inline=lambda fi_: fi_.name == meth)
+                cc_.run(empty_state())
+                later_ = []
+                for e_, s_ in cc_.log:
+                    if e_.kind == 'store' and e_.callee.endswith('.maximum_length_received') and e_.fn.endswith('.' + mname_):
+                        later_.append((e_, s_))
+                for e_, s_ in later_:
+                    v_ = e_.args[0]
+                    table_ = tabulate_limit([(v_, tuple(cn for cn in e_.conds if OWN in cn or (peer_t and peer_t in cn)))], peer_term_of([v_]) or peer_t) \
+                        if (peer_term_of([v_]) or peer_t) else None
+                    bad_ = []
+                    if table_ is None:
+                        if v_ != OWN:
+                            bad_.append('a value the rule cannot evaluate (%s)' % v_[:80])
+                    else:
+                        for (own_, pv_), res_ in sorted(table_.items()):
+                            for r_ in res_:
+                                if isinstance(r_, int) and r_ not in (effective_limit(own_, pv_), own_):
+                                    bad_.append('%d with own limit %d and peer value %d' % (r_, own_, pv_))
+                    if bad_:
+                        p2.append('%s writes the Maximum Length sub-item of the request again after %s() has queued the reply that shares it '
+                                  '(line %d): the A-ASSOCIATE-AC is encoded later and announces %s' % (mf_.qualname, meth, e_.line, bad_[0]))
             etable = tabulate_limit([(e.args[0], e.conds) for e, s in echoes], peer_t) if echoes and peer_t else None
             if etable is not None:
                 for (own_, pv_), res_ in sorted(etable.items()):
